@@ -80,3 +80,443 @@ Proof.
   destruct (assemble_bytes c ps instrs 0 lm0 Hop HF) as [lm H].
   exists lm. rewrite H, E. reflexivity.
 Qed.
+
+(* ------------------------------------------------------------------ *)
+(** * 2. Ordered dicts whose keys are consecutive even offsets *)
+
+Notation evens := range2_fuel.
+
+Definition addl (d : odict (list Z)) (k : Z) : list Z :=
+  match oget d k with Some l => l | None => [] end.
+
+Lemma okeys_app {V} (a b : odict V) : okeys (a ++ b) = okeys a ++ okeys b.
+Proof. unfold okeys. apply map_app. Qed.
+
+Lemma okeys_cells {V} (v : V) ks : okeys (map (fun o => (o, v)) ks) = ks.
+Proof. unfold okeys. rewrite map_map. cbn [fst]. apply map_id. Qed.
+
+Lemma evens_S k a : evens (S k) a = a :: evens k (a + 2).
+Proof. reflexivity. Qed.
+
+(* a dict whose keys are evens k a and that has an entry at a starts with that entry *)
+Lemma evens_head {V} (L : odict V) k a v :
+  okeys L = evens k a -> oget L a = Some v ->
+  exists k' L', k = S k' /\ L = (a, v) :: L' /\ okeys L' = evens k' (a + 2).
+Proof.
+  intros HK HG. destruct k as [|k'].
+  - destruct L; [discriminate HG | discriminate HK].
+  - destruct L as [|[k0 v0] L']; [discriminate HK|].
+    cbn [okeys map fst range2_fuel] in HK. inversion HK as [[E1 E2]]. subst k0.
+    cbn [oget] in HG. rewrite Z.eqb_refl in HG. inversion HG; subst v0.
+    exists k', L'. split; [reflexivity|]. split; [reflexivity|]. exact E2.
+Qed.
+
+Lemma oget_evens_lt {V} (L : odict V) k a u : okeys L = evens k a -> u < a -> oget L u = None.
+Proof.
+  revert k a. induction L as [|[k0 v0] L IH]; intros k a HK Hu; [reflexivity|].
+  destruct k as [|k']; [discriminate HK|].
+  cbn [okeys map fst range2_fuel] in HK. inversion HK as [[E1 E2]]. subst k0.
+  cbn [oget]. destruct (a =? u) eqn:E; [lia|]. eapply IH; [exact E2 | lia].
+Qed.
+
+(* popping the next m keys, all mapped to v, removes the first m entries *)
+Lemma peel {V} (v : V) : forall m a (L : odict V) k,
+  okeys L = evens k a ->
+  (forall u, In u (evens m a) -> oget L u = Some v) ->
+  exists L2 k2,
+    L = map (fun u => (u, v)) (evens m a) ++ L2 /\
+    fold_left (fun d u => odel d u) (evens m a) L = L2 /\
+    okeys L2 = evens k2 (a + 2 * Z.of_nat m).
+Proof.
+  induction m as [|m IH]; intros a L k HK HV.
+  - exists L, k. cbn [range2_fuel map app fold_left]. split; [reflexivity|]. split; [reflexivity|].
+    rewrite HK. f_equal. lia.
+  - assert (HA : oget L a = Some v) by (apply HV; cbn [range2_fuel]; now left).
+    destruct (evens_head L k a v HK HA) as (k' & L' & -> & -> & HK').
+    destruct (IH (a + 2) L' k' HK') as (L2 & k2 & E1 & E2 & E3).
+    { intros u Hu. specialize (HV u). cbn [range2_fuel In] in HV.
+      specialize (HV (or_intror Hu)). cbn [oget] in HV.
+      apply DecodeView.In_range2_fuel_lt in Hu.
+      destruct (a =? u) eqn:E; [lia | exact HV]. }
+    exists L2, k2. cbn [range2_fuel map fold_left odel app]. rewrite Z.eqb_refl.
+    split; [f_equal; exact E1|]. split; [exact E2|].
+    rewrite E3. f_equal. lia.
+Qed.
+
+Lemma fresh_lt (m : odict (option Z)) a :
+  Forall (fun kv : Z * option Z => fst kv < a) m -> LT_310.fresh m a.
+Proof.
+  intros H k Hk. apply in_map_iff in Hk as [[k0 v0] [E Hin]]. cbn [fst] in E. subst k0.
+  rewrite Forall_forall in H. exact (H _ Hin).
+Qed.
+
+Lemma Forall_lt_mono {V} (m : odict V) a b :
+  a <= b -> Forall (fun kv : Z * V => fst kv < a) m -> Forall (fun kv : Z * V => fst kv < b) m.
+Proof. intros Hab H. eapply Forall_impl; [|exact H]. cbv beta. intros; lia. Qed.
+
+Lemma Forall_cells_lt {V} (v : V) m a b :
+  a + 2 * Z.of_nat m <= b ->
+  Forall (fun kv : Z * V => fst kv < b) (map (fun u => (u, v)) (evens m a)).
+Proof.
+  intros H. apply Forall_forall. intros [k0 v0] Hin. apply in_map_iff in Hin as [u [E Hu]].
+  inversion E; subst. cbn [fst]. apply DecodeView.In_range2_fuel_lt in Hu. lia.
+Qed.
+
+Lemma zlen_emit_units c op a k : zlen (emit_units c op a k) = 2 * Z.of_nat k.
+Proof.
+  induction k as [|k IH]; [reflexivity|].
+  cbn [emit_units]. unfold zlen in *. cbn [length]. lia.
+Qed.
+
+Lemma range2_units i k : 1 <= k -> range2 (i + 2) (i + 2 * k) = evens (Z.to_nat (k - 1)) (i + 2).
+Proof.
+  intros H. replace (i + 2 * k) with (i + 2 + 2 * (k - 1)) by lia.
+  rewrite LT_310.range2_fuel_eq by (unfold LT_310.wfw; lia). f_equal. lia.
+Qed.
+
+Lemma option_eqb2_true (a b : option (option Z)) :
+  option_eqb (option_eqb Z.eqb) a b = true -> a = b.
+Proof.
+  destruct a as [[x|]|], b as [[y|]|]; cbn [option_eqb]; intros H; try discriminate; try reflexivity.
+  apply Z.eqb_eq in H. now subst.
+Qed.
+
+(* ------------------------------------------------------------------ *)
+(** * 3. The decoded mapping: its keys, and from_line_mapping gives the table back *)
+
+Lemma loop_keys : forall fuel items n last cur bo lines adds m,
+  items_to_mapping_lnotab fuel items n last cur bo lines adds = OK m ->
+  Forall (fun kv : Z * option Z => fst kv < bo) lines ->
+  exists L' k, lm_lines m = lines ++ L' /\ okeys L' = evens k bo.
+Proof.
+  assert (Hstep : forall bo (lines : odict (option Z)) x,
+             Forall (fun kv : Z * option Z => fst kv < bo) lines ->
+             Forall (fun kv : Z * option Z => fst kv < bo + 2) (oset lines bo x)
+             /\ oset lines bo x = lines ++ [(bo, x)]).
+  { intros bo lines x Hl. rewrite (LT_Lnotab.oset_fresh lines bo x Hl). split; [|reflexivity].
+    apply Forall_app. split; [eapply Forall_lt_mono; [|exact Hl]; lia|].
+    constructor; [cbn [fst]; lia | constructor]. }
+  assert (Hfin : forall (lines L'' : odict (option Z)) bo x k m,
+             lm_lines m = (lines ++ [(bo, x)]) ++ L'' -> okeys L'' = evens k (bo + 2) ->
+             exists L' k', lm_lines m = lines ++ L' /\ okeys L' = evens k' bo).
+  { intros lines L'' bo x k m E1 E2. exists ((bo, x) :: L''), (S k).
+    rewrite E1, <- app_assoc. split; [reflexivity|].
+    cbn [okeys map fst range2_fuel]. f_equal. exact E2. }
+  induction fuel as [|fuel IH]; intros items n last cur bo lines adds m H Hl.
+  - cbn [items_to_mapping_lnotab] in H.
+    destruct (negb _); [|discriminate]. inversion H; subst m. cbn [lm_lines].
+    exists [], 0%nat. rewrite app_nil_r. split; reflexivity.
+  - rewrite LT_Lnotab.loop_S in H.
+    destruct (negb _) eqn:Ecnd.
+    + inversion H; subst m. cbn [lm_lines].
+      exists [], 0%nat. rewrite app_nil_r. split; reflexivity.
+    + destruct items as [|[il ib] r].
+      * destruct (Hstep bo lines (Some cur) Hl) as [F1 F2].
+        destruct (IH _ _ _ _ _ _ _ _ H F1) as (L'' & k & E1 & E2).
+        rewrite F2 in E1. eapply Hfin; eassumption.
+      * cbv zeta in H.
+        match type of H with
+        | match ?S1 with _ => _ end = _ => destruct S1 as [[[[items1 cur1] last1] adds1]|e]; [|discriminate]
+        end.
+        destruct (consume_zero_width items1 bo cur1 adds1) as [[[items2 cur2] adds2]|e]; [|discriminate].
+        destruct (Hstep bo lines (Some cur2) Hl) as [F1 F2].
+        destruct (IH _ _ _ _ _ _ _ _ H F1) as (L'' & k & E1 & E2).
+        rewrite F2 in E1. eapply Hfin; eassumption.
+Qed.
+
+Lemma keys_of_ranges : forall p a, ranges_ok p = true ->
+  exists k, okeys (mapping_of_ranges p a) = evens k a.
+Proof.
+  induction p as [|[bd line] r IH]; intros a Hok.
+  - exists 0%nat. reflexivity.
+  - apply LT_310.ranges_ok_cons in Hok as (Hbd & Hev & Hr & _).
+    destruct (IH (a + bd) Hr) as [k Hk].
+    cbn [mapping_of_ranges]. rewrite okeys_app, okeys_cells, Hk.
+    rewrite LT_310.range2_fuel_eq by (unfold LT_310.wfw; lia).
+    exists (Z.to_nat (bd / 2) + k)%nat. rewrite LT_310.range2_fuel_app.
+    f_equal. f_equal. lia.
+Qed.
+
+Lemma list_eqb_eitem a b : list_eqb eitem_eqb a b = true -> a = b.
+Proof.
+  apply list_eqb_spec. intros [x1 x2] [y1 y2]. unfold eitem_eqb. cbn [fst snd]. split.
+  - intros H. apply andb_true_iff in H as [H1 H2]. f_equal; lia.
+  - intros H. inversion H; subst. rewrite !Z.eqb_refl. reflexivity.
+Qed.
+
+Lemma lm0_char c table n lm0 :
+  rt_table_ok c table n = true ->
+  to_line_mapping (cfg_v310 c) table n = OK lm0 ->
+  (exists k, okeys (lm_lines lm0) = evens k 0) /\
+  from_line_mapping (cfg_v310 c) lm0 = OK table.
+Proof.
+  intros T M. unfold rt_table_ok in T.
+  apply andb_true_iff in T as [T T3]. apply andb_true_iff in T as [T1 T2].
+  destruct (LT_ExpandCollapse.bytes_items table T1 T2) as (t & B1 & B2 & B3).
+  assert (R : raw_entries table = t) by (unfold raw_entries; now rewrite B1).
+  rewrite R in T3. unfold to_line_mapping in M. rewrite B1 in M.
+  destruct (cfg_v310 c).
+  - apply andb_true_iff in T3 as [T3 _]. unfold is_asm310_image in T3.
+    apply andb_true_iff in T3 as [T3 T6]. apply andb_true_iff in T3 as [T4 T5].
+    apply list_eqb_eitem in T6.
+    set (p := ranges_of_from t 0) in *.
+    assert (Hne : p <> []) by (destruct p; [discriminate T5 | discriminate]).
+    rewrite <- T6 in M. rewrite (LT_310.mapping_of_asm310 p n T4) in M.
+    inversion M; subst lm0. split.
+    + cbn [lm_lines]. apply keys_of_ranges. exact T4.
+    + unfold from_line_mapping. rewrite (LT_310.items_of_mapping_310 p T4 Hne).
+      rewrite (LT_310.expand_deltas p 0 T4). rewrite T6. exact B3.
+  - apply andb_true_iff in T3 as [T4 T5]. split.
+    + unfold items_to_mapping in M.
+      destruct (loop_keys _ _ _ _ _ _ _ _ _ M ltac:(constructor)) as (L' & k & E1 & E2).
+      exists k. rewrite E1. exact E2.
+    + destruct (LT_Lnotab.mapping_items_lnotab (collapse_items false t) n T5) as (m & M1 & M2).
+      rewrite M in M1. inversion M1; subst m.
+      unfold from_line_mapping. rewrite M2.
+      rewrite (LT_ExpandCollapse.expand_collapse false t T4). exact B3.
+Qed.
+
+(* ------------------------------------------------------------------ *)
+(** * 4. One step of the decoder and of the assembler *)
+
+Section Steps.
+  Context {C : Type} (keq : C -> C -> bool) (c : cfg) (fv : list str).
+
+  Lemma decode_step op a k i nx r lm st (ois : list (Z * instr_ C)) lm1 st' :
+    decode_instrs keq c ((op, a, k, i, nx) :: r) fv lm st = OK (ois, lm1, st') ->
+    exists ins st1 line rest,
+      oget (lm_lines lm) i = Some line /\
+      i_line ins = line /\ i_lineoffs ins = addl (lm_adds lm) i /\
+      ois = (i, ins) :: rest /\
+      decode_instrs keq c r fv
+        {| lm_lines := fold_left (fun d u => odel d u) (range2 (i + 2) nx) (odel (lm_lines lm) i);
+           lm_adds := fold_left (fun d u => odel d u) (range2 (i + 2) nx) (odel (lm_adds lm) i) |}
+        st1 = OK (rest, lm1, st').
+  Proof.
+    intros H. cbn [decode_instrs] in H.
+    destruct (to_arg keq c op a nx fv st) as [[parg st1]|e]; [|discriminate].
+    destruct (oget (lm_lines lm) i) as [line|] eqn:EL; [|discriminate].
+    match type of H with
+    | match ?X with _ => _ end = _ => destruct X as [[[rest lmr] str]|e] eqn:ER; [|discriminate]
+    end.
+    inversion H; subst ois lmr str. clear H.
+    eexists _, st1, line, rest. split; [reflexivity|].
+    split; [|split; [|split; [reflexivity | exact ER]]]; reflexivity.
+  Qed.
+
+  Lemma assemble_step (ins : instr_ C) instrs v vals o lm code lm3 :
+    assemble c (ins :: instrs) (v :: vals) o lm = OK (code, lm3) ->
+    let n := n_units (i_nargs ins) v in
+    exists rest,
+      code = emit_units c (i_name ins) v (Z.to_nat n) ++ rest /\
+      assemble c instrs vals (o + 2 * Z.of_nat (Z.to_nat n))
+        {| lm_lines := fold_left (fun d u => oset d u (i_line ins)) (range2 (o + 2) (o + 2 * n))
+                                 (oset (lm_lines lm) o (i_line ins));
+           lm_adds := match i_lineoffs ins with [] => lm_adds lm | l => oset (lm_adds lm) o l end |}
+        = OK (rest, lm3).
+  Proof.
+    intros H n. cbn [assemble] in H.
+    destruct (negb (zmem (i_name ins) (cfg_opcodes c))); [discriminate|].
+    cbv zeta in H. fold n in H. rewrite zlen_emit_units in H.
+    match type of H with
+    | match ?X with _ => _ end = _ => destruct X as [[rest lm']|e] eqn:EA; [|discriminate]
+    end.
+    inversion H; subst code lm'. exists rest. split; reflexivity.
+  Qed.
+End Steps.
+
+(* ------------------------------------------------------------------ *)
+(** * 5. Consistency of the mapping with the instruction boundaries *)
+
+Definition units_cons (L : odict (option Z)) (Ad : odict (list Z)) (ps : list pinstr) : Prop :=
+  Forall (fun p : pinstr =>
+            forall u, In u (range2 (p_first p + 2) (p_next p)) ->
+                      oget L u = oget L (p_first p) /\ oget Ad u = None) ps.
+
+Lemma offsets_ok_lower : forall ps i e,
+  InstrCodec.offsets_ok i ps e = true ->
+  Forall (fun p : pinstr => i <= p_first p /\ p_first p < p_next p) ps.
+Proof.
+  induction ps as [|[[[[op a] k] f] nx] r IH]; intros i e H; [constructor|].
+  cbn [InstrCodec.offsets_ok] in H. split_andb.
+  constructor.
+  - unfold p_first, p_next. cbn [fst snd]. lia.
+  - match goal with U : InstrCodec.offsets_ok _ _ _ = true |- _ => apply IH in U; rename U into HU end.
+    eapply Forall_impl; [|exact HU]. cbv beta. intros p [A B]. split; lia.
+Qed.
+
+Lemma units_cons_pres L Ad L' Ad' ps lo :
+  Forall (fun p : pinstr => lo <= p_first p /\ p_first p < p_next p) ps ->
+  (forall x, lo <= x -> oget L' x = oget L x /\ oget Ad' x = oget Ad x) ->
+  units_cons L Ad ps -> units_cons L' Ad' ps.
+Proof.
+  intros HB HE HC. unfold units_cons in *. rewrite Forall_forall in *.
+  intros p Hp u Hu. destruct (HB p Hp) as [B1 B2]. specialize (HC p Hp u Hu).
+  pose proof (DecodeView.In_range2_lt _ _ _ Hu) as Hr.
+  destruct (HE u ltac:(lia)) as [E1 E2]. destruct (HE (p_first p) ltac:(lia)) as [E3 _].
+  rewrite E1, E2, E3. exact HC.
+Qed.
+
+Lemma lines_on_instrs_cons lm0 first ps :
+  lines_on_instrs lm0 ps = true ->
+  units_cons (lm_lines (modify_line_offsets lm0 first)) (lm_adds lm0) ps.
+Proof.
+  unfold lines_on_instrs, units_cons. rewrite forallb_forall, Forall_forall.
+  intros H p Hp u Hu. specialize (H p Hp). rewrite forallb_forall in H. specialize (H u Hu).
+  apply andb_true_iff in H as [H1 H2]. apply option_eqb2_true in H1.
+  rewrite !DecodeView.oget_modify, H1. split; [reflexivity|].
+  unfold omem in H2. destruct (oget (lm_adds lm0) u); [discriminate | reflexivity].
+Qed.
+
+(* ------------------------------------------------------------------ *)
+(** * 6. Decoder and assembler in lockstep *)
+
+Lemma Forall2_cons_inv {A B} (R : A -> B -> Prop) x l y l' :
+  Forall2 R (x :: l) (y :: l') -> R x y /\ Forall2 R l l'.
+Proof. intros H. inversion H; subst. split; assumption. Qed.
+
+Lemma Forall2_cons_r_inv {A B} (R : A -> B -> Prop) l y l' :
+  Forall2 R l (y :: l') -> exists x l0, l = x :: l0 /\ R x y /\ Forall2 R l0 l'.
+Proof. intros H. inversion H; subst. eexists _, _. split; [reflexivity|]. split; assumption. Qed.
+
+Lemma p_first_eq op a k f n : p_first (op, a, k, f, n) = f.
+Proof. reflexivity. Qed.
+Lemma p_next_eq op a k f n : p_next (op, a, k, f, n) = n.
+Proof. reflexivity. Qed.
+Lemma p_nargs_eq op a k f n : p_nargs (op, a, k, f, n) = k.
+Proof. reflexivity. Qed.
+
+Lemma offsets_ok_le : forall ps i e, InstrCodec.offsets_ok i ps e = true -> i <= e.
+Proof.
+  induction ps as [|[[[[op a] k] f] nx] r IH]; intros i e H; cbn [InstrCodec.offsets_ok] in H; [lia|].
+  split_andb.
+  match goal with U : InstrCodec.offsets_ok _ _ _ = true |- _ => apply IH in U end. lia.
+Qed.
+
+Section Lockstep.
+  Context {C : Type} (keq : C -> C -> bool) (c : cfg) (fv : list str).
+
+  Lemma lockstep : forall ps i e (instrs : list (instr_ C)) vals ois L Ad st lm1 st'
+                          accL accA code lm3 kk,
+    InstrCodec.offsets_ok i ps e = true ->
+    okeys L = evens kk i ->
+    units_cons L Ad ps ->
+    decode_instrs keq c ps fv {| lm_lines := L; lm_adds := Ad |} st = OK (ois, lm1, st') ->
+    Forall2 (fun (i : instr_ C) (oi : Z * instr_ C) =>
+               i_line i = i_line (snd oi) /\ i_lineoffs i = i_lineoffs (snd oi)) instrs ois ->
+    Forall2 (fun (iv : instr_ C * Z) (p : pinstr) =>
+               n_units (i_nargs (fst iv)) (snd iv) = p_nargs p) (combine instrs vals) ps ->
+    length vals = length instrs ->
+    Forall (fun kv : Z * option Z => fst kv < i) accL ->
+    (forall u, i <= u -> oget accA u = None) ->
+    assemble c instrs vals i {| lm_lines := accL; lm_adds := accA |} = OK (code, lm3) ->
+    zlen code = e - i /\
+    accL ++ L = lm_lines lm3 ++ lm_lines lm1 /\
+    Forall (fun kv : Z * option Z => fst kv < e) (lm_lines lm3) /\
+    (exists k', okeys (lm_lines lm1) = evens k' e) /\
+    (forall u, e <= u -> oget (lm_adds lm3) u = None) /\
+    (forall u, i <= u < e -> (u - i) mod 2 = 0 -> addl (lm_adds lm3) u = addl Ad u) /\
+    (forall u, u < i -> oget (lm_adds lm3) u = oget accA u) /\
+    (forall u, e <= u -> oget (lm_adds lm1) u = oget Ad u).
+  Proof.
+    induction ps as [|[[[[op a] k] first] next] r IH];
+      intros i e instrs vals ois L Ad st lm1 st' accL accA code lm3 kk HO HK HC HD H1 H2 HL HaL HaA HA.
+    - cbn [InstrCodec.offsets_ok] in HO. assert (e = i) by lia. subst e.
+      cbn [decode_instrs] in HD. inversion HD; subst ois lm1 st'. inversion H1; subst instrs.
+      cbn [assemble] in HA. inversion HA; subst code lm3. cbn [lm_lines lm_adds].
+      split; [change (zlen (@nil Z)) with 0; lia|].
+      split; [reflexivity|]. split; [exact HaL|]. split; [exists kk; exact HK|].
+      split; [exact HaA|]. split; [intros; lia|]. split; reflexivity.
+    - cbn [InstrCodec.offsets_ok] in HO. split_andb.
+      assert (first = i) by lia. subst first.
+      assert (next = i + 2 * k) by lia. subst next.
+      assert (Hk : 1 <= k) by lia.
+      match goal with U : InstrCodec.offsets_ok _ r e = true |- _ => rename U into HO' end.
+      (* decoder *)
+      apply decode_step in HD.
+      destruct HD as (ins & st1 & line0 & rest & EL & Il & Io & -> & ER).
+      subst line0. cbn [lm_lines lm_adds] in EL, Io, ER.
+      (* the matching instruction and value *)
+      apply Forall2_cons_r_inv in H1 as (ins0 & instrs' & -> & [R1a R1b] & H1').
+      cbn [snd] in R1a, R1b.
+      destruct vals as [|v vals']; [discriminate HL|].
+      cbn [combine] in H2. apply Forall2_cons_inv in H2 as [R2 H2'].
+      rewrite p_nargs_eq in R2. cbn [fst snd] in R2.
+      cbn [length] in HL. apply Nat.succ_inj in HL.
+      (* assembler *)
+      apply assemble_step in HA. cbv zeta in HA. rewrite R2 in HA.
+      destruct HA as (rest_code & -> & EA). cbn [lm_lines lm_adds] in EA.
+      replace (2 * Z.of_nat (Z.to_nat k)) with (2 * k) in EA by lia.
+      rewrite R1a, R1b, Io in EA.
+      set (line := i_line ins) in *.
+      (* shape of the current mapping *)
+      destruct (evens_head L kk i line HK EL) as (kk' & L' & -> & -> & HK').
+      apply Forall_cons_iff in HC as [HC0 HC'].
+      rewrite p_first_eq, p_next_eq in HC0.
+      rewrite range2_units in HC0, ER, EA by exact Hk.
+      set (m := Z.to_nat (k - 1)) in *.
+      destruct (peel line m (i + 2) L' kk' HK') as (L2 & k2 & EP1 & EP2 & EP3).
+      { intros u Hu. destruct (HC0 u Hu) as [X _]. cbn [oget] in X. rewrite Z.eqb_refl in X.
+        apply DecodeView.In_range2_fuel_lt in Hu.
+        destruct (i =? u) eqn:E; [lia | exact X]. }
+      replace (i + 2 + 2 * Z.of_nat m) with (i + 2 * k) in EP3 by lia.
+      cbn [odel] in ER. rewrite Z.eqb_refl in ER. rewrite EP2 in ER.
+      set (Ad' := fold_left (fun d u => odel d u) (evens m (i + 2)) (odel Ad i)) in *.
+      assert (HAd' : forall u, i + 2 * k <= u -> oget Ad' u = oget Ad u).
+      { intros u Hu. unfold Ad'. rewrite DecodeView.oget_fold_odel.
+        - apply DecodeView.oget_odel_neq. lia.
+        - intros X. apply DecodeView.In_range2_fuel_lt in X. lia. }
+      (* the assembler's lines *)
+      assert (EL1 : oset accL i line = accL ++ [(i, line)])
+        by (apply LT_Lnotab.oset_fresh; exact HaL).
+      rewrite EL1 in EA.
+      rewrite LT_310.fold_oset_fuel in EA.
+      2:{ apply fresh_lt. apply Forall_app. split.
+          - eapply Forall_lt_mono; [|exact HaL]. lia.
+          - constructor; [cbn [fst]; lia | constructor]. }
+      set (accL' := (accL ++ [(i, line)]) ++ map (fun o => (o, line)) (evens m (i + 2))) in *.
+      set (accA' := match addl Ad i with [] => accA | z :: l => oset accA i (z :: l) end) in *.
+      assert (HaL' : Forall (fun kv : Z * option Z => fst kv < i + 2 * k) accL').
+      { unfold accL'. apply Forall_app. split; [apply Forall_app; split|].
+        - eapply Forall_lt_mono; [|exact HaL]. lia.
+        - constructor; [cbn [fst]; lia | constructor].
+        - apply Forall_cells_lt. lia. }
+      assert (HaA1 : forall u, u <> i -> oget accA' u = oget accA u).
+      { intros u Hu. unfold accA'. destruct (addl Ad i); [reflexivity|].
+        apply LT_Lnotab.oget_oset_other. lia. }
+      assert (HaA2 : addl accA' i = addl Ad i).
+      { unfold accA'. destruct (addl Ad i) eqn:E.
+        - unfold addl. rewrite HaA by lia. reflexivity.
+        - unfold addl at 1. rewrite LT_Lnotab.oget_oset_same. reflexivity. }
+      assert (HaA' : forall u, i + 2 * k <= u -> oget accA' u = None).
+      { intros u Hu. rewrite HaA1 by lia. apply HaA. lia. }
+      assert (HC2 : units_cons L2 Ad' r).
+      { eapply units_cons_pres; [exact (offsets_ok_lower _ _ _ HO') | | exact HC'].
+        intros x Hx. split; [|apply HAd'; exact Hx].
+        rewrite <- EP2. rewrite DecodeView.oget_fold_odel.
+        - cbn [oget]. destruct (i =? x) eqn:E; [lia | reflexivity].
+        - intros X. apply DecodeView.In_range2_fuel_lt in X. lia. }
+      destruct (IH (i + 2 * k) e instrs' vals' rest L2 Ad' st1 lm1 st' accL' accA' rest_code lm3 k2
+                   HO' EP3 HC2 ER H1' H2' HL HaL' HaA' EA)
+        as (G1 & G2 & G3 & G4 & G5 & G6 & G7 & G8).
+      pose proof (offsets_ok_le _ _ _ HO') as Hie.
+      split.
+      { rewrite LT_Lnotab.zlen_app, zlen_emit_units, G1. lia. }
+      split.
+      { rewrite <- G2. unfold accL'. rewrite EP1. rewrite <- !app_assoc. reflexivity. }
+      split; [exact G3|]. split; [exact G4|]. split; [exact G5|].
+      split.
+      { intros u Hu Hm.
+        destruct (Z_lt_le_dec u (i + 2 * k)) as [Hlt|Hge].
+        - unfold addl at 1. rewrite G7 by exact Hlt. fold (addl accA' u).
+          destruct (Z.eq_dec u i) as [->|Hne]; [exact HaA2|].
+          unfold addl. rewrite HaA1 by exact Hne. rewrite HaA by lia.
+          assert (Hin : In u (evens m (i + 2))).
+          { apply LT_310.In_range2_fuel. unfold m. lia. }
+          destruct (HC0 u Hin) as [_ X]. rewrite X. reflexivity.
+        - rewrite G6 by lia. unfold addl. rewrite HAd' by exact Hge. reflexivity. }
+      split.
+      { intros u Hu. rewrite G7 by lia. apply HaA1. lia. }
+      intros u Hu. rewrite G8 by exact Hu. apply HAd'. lia.
+  Qed.
+End Lockstep.
